@@ -213,14 +213,20 @@ class _ModelScreenDevice:
         self.ref = None
         self.w = w
         self.bits = []
+        self.frame_at = []
+        self.cmd_start = 0
         self.fired = None
 
     def attach_memory(self, mem):
         self.ref = screen.RefScreen(self.w, mem)
 
     def write_bit(self, bit):
+        if len(self.bits) % 8 == 0 and not self.ref.buf:
+            self.cmd_start = len(self.bits)         # the first bit of a command byte
         self.bits.append(1 if bit else 0)
         self.ref.write_bit(bit)
+        while len(self.frame_at) < len(self.ref.frames):
+            self.frame_at.append(len(self.bits))        # this frame was presented by the bit just written
 
     def read_bit(self):
         from flipjump.utils.exceptions import IOReadOnEOF
@@ -243,7 +249,7 @@ def run_screen_model(case):
     except ValueError:
         outcome = ('raise', 'FlipJumpRuntimeException')
     return {'outcome': outcome, 'ops': m.count if outcome[0] == 'term' else None, 'bits': dev.bits,
-            'frames': dev.ref.frames}, m
+            'frames': dev.ref.frames, 'frame_at': dev.frame_at, 'cmd_start': dev.cmd_start}, m
 
 
 def run_screen_engine(case, cfg, path):
@@ -294,10 +300,20 @@ def eval_screen(case):
         obs = run_screen_engine(case, cfg, path)
         steps += obs['ops'] or 0
         clause = None
+        want = exp
+        if exp['outcome'] == ('raise', 'IODeviceException') and obs['outcome'] == exp['outcome'] and \
+                exp['cmd_start'] + 8 <= len(obs['bits']) < len(exp['bits']) and \
+                obs['bits'] == exp['bits'][:len(obs['bits'])]:
+            # a stream the documented layout rejects: the statement asks for a device error, not for the byte at which
+            # it is raised. A device that gives up on the doomed command EARLIER than the reference decoder - anywhere
+            # from its command byte on - is right too, with the frames that had been presented by then and none more.
+            k = sum(1 for at in exp['frame_at'] if at <= len(obs['bits']))
+            want = dict(exp, bits=obs['bits'], frames=exp['frames'][:k])
         for f, name in (('outcome', 'termination'), ('ops', 'op-count'), ('bits', 'device-log'), ('frames', 'frames')):
-            if exp[f] != obs[f]:
+            e_f = want[f]
+            if e_f != obs[f]:
                 clause = name
-                e, o = exp[f], obs[f]
+                e, o = e_f, obs[f]
                 if f in ('bits', 'frames'):
                     e, o = {'len': len(e), 'last': C._j(e[-1:])}, {'len': len(o), 'last': C._j(o[-1:])}
                 break
